@@ -1319,7 +1319,13 @@ class BaseImage(metaclass=ImageMeta):
 
     def _close_image(self, img: PIL.Image.Image) -> None:
         """Closes the given PIL image instance if it isn't the instance' source."""
-        if img is not self._source:
+        # `_source` no longer exists once the instance has been finalized (e.g when an
+        # iterator that outlives the instance is closed). Only a PIL image source must
+        # never be closed; an image opened from a file/URL source is always closed.
+        if (
+            self._source_type is not ImageSource.PIL_IMAGE
+            or img is not getattr(self, "_source", img)
+        ):
             img.close()
 
     def _display_animated(
